@@ -276,3 +276,50 @@ func SingleTermNoInverse(e Expr) bool {
 	}
 	return true
 }
+
+// RoundConsts maps every rational constant of e (coefficients, and constants inside function / power / clamp
+// arguments and conditions) to the rational value of its nearest float64: `1 - eps` computed at run time and the
+// compiler-folded constant `1 - eps` denote the same double although their exact rationals differ by ~1e-28.
+func (e Expr) RoundConsts() Expr {
+	out := Expr{}
+	for _, t := range e.terms {
+		f, _ := t.c.Float64()
+		x := NumF(f)
+		for _, fc := range t.f {
+			x = Mul(x, PowInt(fc.a.roundConsts(), fc.e))
+		}
+		out = Add(out, x)
+	}
+	return out
+}
+
+func (a *Atom) roundConsts() Expr {
+	switch a.Kind {
+	case AFn:
+		args := make([]Expr, len(a.Args))
+		for i, x := range a.Args {
+			args[i] = x.RoundConsts()
+		}
+		return FnE(a.Name, args...)
+	case APow:
+		return PowE(a.Args[0].RoundConsts(), a.Args[1].RoundConsts())
+	case ASum:
+		return sumAtom(a.Args[0].RoundConsts())
+	case AInd:
+		if a.Cond != nil {
+			return Ind(a.Cond.mapParts(func(p Poly) Poly { return p }, func(x Expr) Expr { return x.RoundConsts() }))
+		}
+	case ASigma, ABigMax, ABigMin:
+		v := FreshVar()
+		body := a.Args[0].SubstIdx(map[string]Poly{a.Var: PAtom(v)}).RoundConsts()
+		switch a.Kind {
+		case ASigma:
+			return Sigma(v, a.N, body)
+		case ABigMax:
+			return BigMax(v, a.N, body)
+		default:
+			return BigMin(v, a.N, body)
+		}
+	}
+	return atomExpr(a)
+}
